@@ -113,8 +113,17 @@ def _linear_case(ck, D, N, name, pins, ctor, symdoc):
     pre = [L > 0]
     W = orc.two_pi_over(L)
     calls = enc.interp.calls.get("exp", [])
+    calls = [c for c in calls if tuple(c["arg"].shape) == spec]
     if len(calls) != 1:
-        raise RuntimeError(f"{tag}: expected one exp call, found {len(calls)}")
+        # the constructor does not have the single exp(dt * symbol) of the documented form (several exponentials, or the
+        # symbol folded to a constant): compare the step's OUTPUT with exp(dt * documented symbol) * u_hat mode by mode
+        for idx, m in orc.stored_modes(D, N):
+            doc_arg = orc.cscale(symdoc(m, W, *ps), dt)
+            e_doc = enc.interp._ack("exp", doc_arg, True) if not sym.is_conc(doc_arg) else Cx(ONE, ZERO)
+            want_ = sym.cmul(sym.asc(e_doc), uh[(0,) + idx])
+            ck.add(f"{tag}/output/{'_'.join(map(str, idx))}", sym.equal_goal(enc.outs[0][(0,) + idx], want_), pre + enc.interp.sound_facts(), family=f"{name}/output = exp(dt symbol) u_hat",
+                   replay=enc.replay_eq(0, (0,) + idx, want_), meta={"D": D, "N": N, "mode": list(m)})
+        return
     arg, E = calls[0]["arg"], calls[0]["out"]
     doc_exp = np.empty(spec, dtype=object)
     for idx, m in orc.stored_modes(D, N):
